@@ -153,6 +153,17 @@ fn fnv(s: &str) -> u64 {
     h
 }
 
+static VIOLATION_SEEN: std::sync::atomic::AtomicBool = std::sync::atomic::AtomicBool::new(false);
+
+/// Leave the process because of harness/tool trouble (inconclusive, exit 2) - unless a VIOLATION line
+/// has already been printed in this run, in which case the verdict stands (exit 1).
+pub fn exit_trouble() -> ! {
+    if VIOLATION_SEEN.load(std::sync::atomic::Ordering::SeqCst) {
+        std::process::exit(1)
+    }
+    std::process::exit(2)
+}
+
 pub fn progress() -> bool {
     std::env::var("VERIF_PROGRESS").is_ok()
 }
@@ -353,6 +364,7 @@ impl Ctx {
         if !self.is_replay() {
             let _ = std::fs::write(&path, serde_json::to_string_pretty(&body).unwrap());
         }
+        VIOLATION_SEEN.store(true, std::sync::atomic::Ordering::SeqCst);
         println!("VIOLATION property={} replay={}", self.prop, path.display());
         println!("  sub={} signature={}", sub, f.signature);
         let m: String = f.msg.chars().take(2000).collect();
